@@ -24,6 +24,7 @@ import (
 	"github.com/alibaba/sentinel-golang/core/config"
 	"github.com/alibaba/sentinel-golang/core/flow"
 	"github.com/alibaba/sentinel-golang/core/stat"
+	"github.com/alibaba/sentinel-golang/core/system"
 	"github.com/alibaba/sentinel-golang/logging"
 )
 
@@ -54,6 +55,22 @@ type vRecorder struct {
 	drv     []string    // driver events (private-chain mode)
 	s0      vSnapshot
 	names   []string // resource names the global chain saw during the request (diagnostics)
+	btype   string   // block type of the BlockError the global chain saw ("" = no block seen)
+	inb0    int32    // gauge of the global inbound node when the request was sent
+	inbh    int32    // the same gauge, relative to inb0, when the handler was invoked (-1: not invoked)
+}
+
+func vBlockType(b *base.BlockError) string {
+	if b == nil {
+		return "nil"
+	}
+	switch b.BlockType() {
+	case base.BlockTypeFlow:
+		return "flow"
+	case base.BlockTypeSystemFlow:
+		return "system"
+	}
+	return b.BlockType().String()
 }
 
 var vrec = &vRecorder{}
@@ -66,9 +83,12 @@ func vSnap(res string) vSnapshot {
 	return vSnapshot{n.GetSum(base.MetricEventPass), n.GetSum(base.MetricEventBlock), n.GetSum(base.MetricEventComplete), n.GetSum(base.MetricEventError)}
 }
 
-func (r *vRecorder) slot(e string, ctx *base.EntryContext) {
+func (r *vRecorder) slot(e string, ctx *base.EntryContext, b *base.BlockError) {
 	r.mu.Lock()
 	defer r.mu.Unlock()
+	if e == "block" && r.private == "" {
+		r.btype = vBlockType(b)
+	}
 	if ctx != nil && ctx.Resource != nil && len(r.names) < 4 {
 		r.names = append(r.names, ctx.Resource.Name())
 	}
@@ -93,6 +113,7 @@ func (r *vRecorder) reset(private string) {
 	r.mu.Lock()
 	defer r.mu.Unlock()
 	r.events, r.snaps, r.drv, r.private, r.names = nil, nil, nil, private, nil
+	r.btype, r.inb0, r.inbh = "", stat.InboundNode().CurrentConcurrency(), -1
 	if private != "" {
 		r.s0 = vSnap(private)
 	}
@@ -138,19 +159,24 @@ func (r *vRecorder) result() []string {
 type vSlot struct{}
 
 func (vSlot) Order() uint32                                             { return 0 }
-func (vSlot) OnEntryPassed(ctx *base.EntryContext)                      { vrec.slot("pass", ctx) }
-func (vSlot) OnEntryBlocked(ctx *base.EntryContext, _ *base.BlockError) { vrec.slot("block", ctx) }
+func (vSlot) OnEntryPassed(ctx *base.EntryContext)                      { vrec.slot("pass", ctx, nil) }
+func (vSlot) OnEntryBlocked(ctx *base.EntryContext, b *base.BlockError) { vrec.slot("block", ctx, b) }
 func (vSlot) OnCompleted(ctx *base.EntryContext) {
 	if ctx.Err() != nil {
-		vrec.slot("complete-err", ctx)
+		vrec.slot("complete-err", ctx, nil)
 	} else {
-		vrec.slot("complete", ctx)
+		vrec.slot("complete", ctx, nil)
 	}
 }
 
 // VHit is called by every driver handler first thing: records the invocation, then behaves as told.
 func VHit(outcome string) error {
 	vrec.driver("handler")
+	vrec.mu.Lock()
+	if vrec.inbh == -1 {
+		vrec.inbh = stat.InboundNode().CurrentConcurrency() - vrec.inb0
+	}
+	vrec.mu.Unlock()
 	switch outcome {
 	case "err":
 		return VErr
@@ -192,11 +218,15 @@ type VCls struct {
 	Errsig  bool   `json:"errsig"`
 	Fb      string `json:"fb"`
 	Outcome string `json:"outcome"`
+	Side    string `json:"side"` // "server" | "client": what the entry point is
+	Flow    bool   `json:"flow"` // a flow rule with threshold 0 is loaded on the resource the request is meant to hit
+	Sys     string `json:"sys"`  // "none" | "slack" | "violated": the system rules while the request is sent
 }
 
 // VCase is one (entry point, option variant) of an adapter.
 type VCase struct {
 	Ep      string   // exported entry point, as the source lists it
+	Side    string   // "server" (middleware / server interceptor / handler wrapper: guards INBOUND traffic) | "client" (OUTBOUND calls)
 	Variant string   // which options
 	Options []string // exported option constructors used by the variant
 	Wraps   bool
@@ -254,8 +284,16 @@ func VRun(t *testing.T, adapter string, cases []VCase) {
 	var rules []*flow.Rule
 	seen := map[string]bool{}
 	eps, opts := map[string]bool{}, map[string]bool{}
+	sides := map[string]string{}
 	for _, c := range cases {
 		eps[c.Ep] = true
+		if c.Side != "server" && c.Side != "client" {
+			t.Fatalf("%s/%s: the driver does not say which side the entry point is on", c.Ep, c.Variant)
+		}
+		if s, ok := sides[c.Ep]; ok && s != c.Side {
+			t.Fatalf("%s: declared both server-side and client-side", c.Ep)
+		}
+		sides[c.Ep] = c.Side
 		for _, o := range c.Options {
 			opts[o] = true
 		}
@@ -271,7 +309,7 @@ func VRun(t *testing.T, adapter string, cases []VCase) {
 	if _, err := flow.LoadRules(rules); err != nil {
 		t.Fatal(err)
 	}
-	vEmit(map[string]interface{}{"op": "registry", "adapter": adapter, "eps": vKeys(eps), "options": vKeys(opts)})
+	vEmit(map[string]interface{}{"op": "registry", "adapter": adapter, "eps": vKeys(eps), "options": vKeys(opts), "sides": sides})
 
 	// VERIF_ROUNDS rounds; within a round the requests are sent in an order seeded by VERIF_SEED
 	rounds, _ := strconv.Atoi(os.Getenv("VERIF_ROUNDS"))
@@ -284,9 +322,12 @@ func VRun(t *testing.T, adapter string, cases []VCase) {
 		c       VCase
 		blocked bool
 		oc      string
+		sys     string
 	}
+	srng := rand.New(rand.NewSource(seed + 7919)) // order of the system-protection scenarios
 	for round := 0; round < rounds; round++ {
 		var first, last []one
+		var sfirst, slast []one // a system rule is the only rule in force: see vOne
 		for _, c := range cases {
 			outcomes := c.Outcomes
 			if outcomes == nil {
@@ -295,9 +336,18 @@ func VRun(t *testing.T, adapter string, cases []VCase) {
 			for _, blocked := range []bool{false, true} {
 				for _, oc := range outcomes {
 					if c.Last {
-						last = append(last, one{c, blocked, oc})
+						last = append(last, one{c, blocked, oc, ""})
 					} else {
-						first = append(first, one{c, blocked, oc})
+						first = append(first, one{c, blocked, oc, ""})
+					}
+				}
+			}
+			for _, sys := range VSysLoads {
+				for _, oc := range outcomes {
+					if c.Last {
+						slast = append(slast, one{c, false, oc, sys})
+					} else {
+						sfirst = append(sfirst, one{c, false, oc, sys})
 					}
 				}
 			}
@@ -305,18 +355,82 @@ func VRun(t *testing.T, adapter string, cases []VCase) {
 		if round > 0 {
 			rng.Shuffle(len(first), func(i, j int) { first[i], first[j] = first[j], first[i] })
 			rng.Shuffle(len(last), func(i, j int) { last[i], last[j] = last[j], last[i] })
+			srng.Shuffle(len(sfirst), func(i, j int) { sfirst[i], sfirst[j] = sfirst[j], sfirst[i] })
+			srng.Shuffle(len(slast), func(i, j int) { slast[i], slast[j] = slast[j], slast[i] })
 		}
-		for _, o := range append(first, last...) {
-			vOne(adapter, o.c, o.blocked, o.oc)
+		all := append(append(append(first, sfirst...), last...), slast...)
+		for _, o := range all {
+			vOne(t, adapter, o.c, o.blocked, o.oc, o.sys)
 		}
 	}
 }
 
-func vOne(adapter string, c VCase, blocked bool, outcome string) {
+// VSysLoads are the system-protection scenarios every (entry point, variant) is sent through.  The request uses the
+// resource WITHOUT a flow rule, so a system rule is the only rule that can decide:
+//
+//	sys-conc   system.Concurrency, TriggerCount 1, while the driver itself holds one INBOUND entry (direct sentinel.Entry,
+//	           released after the request): violated
+//	sys-qps    system.InboundQPS, TriggerCount 0 (qps < 0 never holds): violated
+//	sys-slack  system.Concurrency, TriggerCount 1000 with the same held entry: loaded, not violated
+//
+// The arrangement is confirmed with a direct inbound probe entry before the request is sent; the system rules are
+// cleared and the held entry exited after every scenario (the inbound node is shared by the whole process).
+var VSysLoads = []string{"sys-conc", "sys-qps", "sys-slack"}
+
+const vHolderRes, vProbeRes = "verif-sys-holder", "verif-sys-probe"
+
+// vArm loads the system rule of scenario sys; the returned function undoes it.
+func vArm(t *testing.T, sys string) (state string, disarm func()) {
+	var holder *base.SentinelEntry
+	if sys != "sys-qps" {
+		h, b := sentinel.Entry(vHolderRes, sentinel.WithTrafficType(base.Inbound))
+		if b != nil {
+			t.Fatalf("%s: the driver's own inbound entry was blocked (%s)", sys, vBlockType(b))
+		}
+		holder = h
+	}
+	rule := &system.Rule{MetricType: system.Concurrency, TriggerCount: 1, Strategy: system.NoAdaptive}
+	state = "violated"
+	switch sys {
+	case "sys-qps":
+		rule = &system.Rule{MetricType: system.InboundQPS, TriggerCount: 0, Strategy: system.NoAdaptive}
+	case "sys-slack":
+		rule.TriggerCount = 1000
+		state = "slack"
+	}
+	if _, err := system.LoadRules([]*system.Rule{rule}); err != nil {
+		t.Fatalf("%s: %v", sys, err)
+	}
+	// confirm the arrangement independently of the adapter: a direct inbound entry is blocked by system protection iff violated
+	p, b := sentinel.Entry(vProbeRes, sentinel.WithTrafficType(base.Inbound))
+	if p != nil {
+		p.Exit()
+	}
+	if (state == "violated") != (b != nil && b.BlockType() == base.BlockTypeSystemFlow) {
+		t.Fatalf("%s: the arrangement does not hold: system rules %s, direct inbound probe blocked=%v (%s)", sys, state, b != nil, vBlockType(b))
+	}
+	return state, func() {
+		if holder != nil {
+			holder.Exit()
+		}
+		if err := system.ClearRules(); err != nil {
+			t.Fatalf("%s: %v", sys, err)
+		}
+	}
+}
+
+func vOne(t *testing.T, adapter string, c VCase, blocked bool, outcome string, sys string) {
 	res := c.Res(blocked)
 	private := ""
 	if c.Private {
 		private = res
+	}
+	want := map[bool]string{false: "admit", true: "block"}[blocked]
+	sysState, disarm := "none", func() {}
+	inbBefore := stat.InboundNode().CurrentConcurrency()
+	if sys != "" {
+		want = sys
+		sysState, disarm = vArm(t, sys)
 	}
 	vrec.reset(private)
 	rejected, escaped, pv := false, false, ""
@@ -339,11 +453,23 @@ func vOne(adapter string, c VCase, blocked bool, outcome string) {
 	if n := stat.GetResourceNode(res); n != nil {
 		conc = n.CurrentConcurrency()
 	}
+	events := vrec.result()
+	vrec.mu.Lock()
+	btype, inbh, inb := vrec.btype, vrec.inbh, stat.InboundNode().CurrentConcurrency()-vrec.inb0
+	vrec.mu.Unlock()
+	disarm()
+	if sys != "" && inb == 0 {
+		// the driver's own held entry must be gone again (a request that leaked is reported through inb above)
+		if now := stat.InboundNode().CurrentConcurrency(); now != inbBefore {
+			t.Fatalf("%s: inbound gauge %d after the scenario, %d before it", sys, now, inbBefore)
+		}
+	}
 	vTr++
 	vEmit(map[string]interface{}{
-		"op": "req", "tr": vTr, "adapter": adapter, "ep": c.Ep, "variant": c.Variant, "want": map[bool]string{false: "admit", true: "block"}[blocked],
-		"res": res, "cls": VCls{c.Wraps, c.Errsig, c.Fb, outcome}, "events": vrec.result(), "conc": conc, "escaped": escaped, "panic": pv,
+		"op": "req", "tr": vTr, "adapter": adapter, "ep": c.Ep, "variant": c.Variant, "want": want,
+		"res": res, "cls": VCls{c.Wraps, c.Errsig, c.Fb, outcome, c.Side, blocked, sysState}, "events": events, "conc": conc, "escaped": escaped, "panic": pv,
 		"src": map[bool]string{false: "slot", true: "node"}[c.Private], "seen": append([]string{}, vrec.names...),
+		"btype": btype, "inb": inb, "inbh": inbh,
 	})
 }
 
